@@ -8,6 +8,8 @@ primitive fail).
 -/
 import Iso8583.Lemmas.MessageRT
 import Iso8583.Lemmas.PrimPrefix
+import Iso8583.Lemmas.FieldPrefix
+import Iso8583.Props.C01
 
 namespace Iso8583.C19
 open Iso8583 MsgSpec MessageRT
@@ -78,6 +80,16 @@ theorem truncation_attribution (spec : MsgSpec)
     (ho : o < bs.length) :
     ∃ k rest, ownerAt (layout spec m) o = some k ∧ spec.unpack (bs.take o) = .err (natToDec k :: rest) :=
   message_truncation_total spec hmti (prim_prefix_fails spec.mti) hf hpf m bs o hc hd hp ho
+
+
+/-- **Truncation attribution for every coherent spec** (composites of any depth included):
+cutting a packed message (a Go slice) at any offset inside element `k` makes Unpack fail
+with a path that starts with `k`. -/
+theorem truncation_attribution_all (spec : MsgSpec) (m : Msg) (bs : Bytes) (o : Nat)
+    (hc : spec.coherent = true) (hd : spec.inDomain m = true) (hp : spec.pack m = .ok bs)
+    (hlen : bs.length ≤ maxInt) (ho : o < bs.length) :
+    ∃ k rest, ownerAt (layout spec m) o = some k ∧ spec.unpack (bs.take o) = .err (natToDec k :: rest) :=
+  FieldPrefix.message_truncation C01.prim_field_roundtrip prim_prefix_fails spec m bs o hc hd hp hlen ho
 
 /-! Non-vacuity: a concrete spec and a truncated message attributed to field 2 -/
 def demoSpec : MsgSpec :=
